@@ -70,7 +70,8 @@ Inductive val : Type :=
 | VTup (l : list val)
 | VTyped (ty : string) (z : Z)          (* a local of a named integer type: pk.VarInt, pk.UnsignedByte *)
 | VReader (s : list N)                 (* the io.Reader: the bytes not yet consumed (flat semantics) *)
-| VErr (e : N).                        (* a non-nil error (nil is VNil) *)
+| VErr (e : N)                         (* a non-nil error (nil is VNil) *)
+| VData (l : list N).                  (* a []uint64 *)
 
 Definition env := list (string * val).
 
@@ -152,6 +153,7 @@ Definition set_lv (e : env) (lv : gexpr) (x : val) : option env :=
       | Some o => match set_field o f x with Some o' => upd e n o' | None => None end
       | None => None
       end
+  | ELit _ _ => Some e                   (* the receiver was a temporary (statesCfg{}.bits(n)): nothing to write back *)
   | _ => None
   end.
 
@@ -236,7 +238,7 @@ Definition lit_val (ty : string) (fs : list (string * val)) : option val :=
     | _, _, _, _ => None
     end
   else if prefixb "singleValuePalette[" ty then
-    match fs with [("v", VZ v)] => Some (VPal (PSingle v)) | _ => None end
+    match fs with [("v", VZ v)] => Some (VPal (PSingle v)) | [("", VZ v)] => Some (VPal (PSingle v)) | _ => None end
   else if prefixb "linearPalette[" ty then
     match lookup fs "bits", lookup fs "values" with
     | Some (VZ b), Some (VSlice l c) => if (List.length fs =? 2)%nat then Some (VPal (PLinear l c b)) else None
@@ -244,7 +246,9 @@ Definition lit_val (ty : string) (fs : list (string * val)) : option val :=
     end
   else if prefixb "hashPalette[" ty then
     match lookup fs "bits", lookup fs "values", lookup fs "ids" with
-    | Some (VZ b), Some (VSlice [] c), Some (VIds []) => if (List.length fs =? 3)%nat then Some (VPal (PHash [] c b)) else None
+    | Some (VZ b), Some (VSlice l c), Some (VIds l') =>
+        (* the map must be the last-index view of exactly these values *)
+        if (List.length fs =? 3)%nat && zlist_eqb l l' then Some (VPal (PHash l c b)) else None
     | _, _, _ => None
     end
   else if prefixb "globalPalette[" ty then
@@ -252,6 +256,19 @@ Definition lit_val (ty : string) (fs : list (string * val)) : option val :=
   else None.
 
 (* ====================== expressions ====================== *)
+
+(* expressions that cannot panic and cannot change the environment: for these && and || need no
+   short circuit *)
+Fixpoint pure_expr (x : gexpr) : bool :=
+  match x with
+  | EInt _ | EId _ => true
+  | ESel a _ => pure_expr a
+  | EBin op a b => negb (String.eqb op "/" || String.eqb op "%") && pure_expr a && pure_expr b
+  | ECall (EId fn) [a] =>
+      (String.eqb fn "len" || String.eqb fn "cap" || String.eqb fn "int" || String.eqb fn "T") && pure_expr a
+  | _ => false
+  end.
+
 
 Fixpoint eval (setf : prims) (fuel : nat) (e : env) (x : gexpr) : eres :=
   match fuel with
@@ -284,7 +301,13 @@ Fixpoint eval (setf : prims) (fuel : nat) (e : env) (x : gexpr) : eres :=
     | EBin op a b =>
         match ev e a with
         | EV e1 (VB ba) =>
-            if String.eqb op "&&" then
+            if (String.eqb op "&&" || String.eqb op "||") && pure_expr b then
+              match ev e1 b with
+              | EV e2 (VB bb) => EV e2 (VB (if String.eqb op "&&" then ba && bb else ba || bb))
+              | EV _ _ => EStuck
+              | r => r
+              end
+            else if String.eqb op "&&" then
               if ba then match ev e1 b with EV e2 (VB bb) => EV e2 (VB bb) | EV _ _ => EStuck | r => r end
               else EV e1 (VB false)
             else if String.eqb op "||" then
@@ -357,7 +380,26 @@ Fixpoint eval (setf : prims) (fuel : nat) (e : env) (x : gexpr) : eres :=
         else
         match evs e args with
         | LV e1 vs =>
-            if String.eqb fn "len" then match vs with [VSlice l _] => EV e1 (VZ (zlen l)) | _ => EStuck end
+            if String.eqb fn "len" then
+              match vs with [VSlice l _] => EV e1 (VZ (zlen l)) | [VData l] => EV e1 (VZ (zlen l)) | _ => EStuck end
+            else if String.eqb fn "calcBitsPerValue" then
+              match vs with
+              | [VZ n; VZ l] => match calc_bits n l with Some r => EV e1 (VZ r) | None => EP e1 pRt end
+              | _ => EStuck
+              end
+            else if String.eqb fn "calcBitStorageSize" then
+              match vs with
+              | [VZ b; VZ n] => match calc_size b n with Some r => EV e1 (VZ r) | None => EP e1 pRt end
+              | _ => EStuck
+              end
+            else if String.eqb fn "withCap" then        (* tied to its own translated body separately *)
+              match vs with [VSlice l _; VZ size] => EV e1 (VSlice l (with_cap l size)) | _ => EStuck end
+            else if String.eqb fn "resolveIndirect" then (* tied to its own translated body separately *)
+              match vs with
+              | [VZ n; VData d; VSlice l _; VZ g] =>
+                  match resolve_indirect n d l g with ROk d' => EV e1 (VData d') | RPanic w => EP e1 w end
+              | _ => EStuck
+              end
             else if String.eqb fn "cap" then match vs with [VSlice _ c] => EV e1 (VZ c) | _ => EStuck end
             else if String.eqb fn "append" then
               match vs with
@@ -369,6 +411,7 @@ Fixpoint eval (setf : prims) (fuel : nat) (e : env) (x : gexpr) : eres :=
             else if String.eqb fn "NewBitStorage" then
               match vs with
               | [VZ b; VZ n; VNil] => match bs_new b n None with ROk d => EV e1 (VStore d) | RPanic w => EP e1 w end
+              | [VZ b; VZ n; VData l] => match bs_new b n (Some l) with ROk d => EV e1 (VStore d) | RPanic w => EP e1 w end
               | _ => EStuck
               end
             else EStuck
@@ -513,6 +556,22 @@ Fixpoint exec (setf : prims) (fuel : nat) (e : env) (s : gstmt) : sres :=
                     if idx =? zlen vals
                     then match upd e2 h (VPalPend vals cap pb key) with Some e3 => SN e3 | None => SStuck end
                     else SStuck
+                | _ => SStuck
+                end
+            | EV _ _ => SStuck | EP e2 w => SP e2 w | EStuck => SStuck
+            end
+        | EV _ _ => SStuck | EP e1 w => SP e1 w | EStuck => SStuck
+        end
+    | SAssign [EIndex (EId m) k] "=" [x] =>
+        (* m[k] = x on a local map built as the index of a slice: only x = number of entries so far *)
+        match ev e k with
+        | EV e1 (VZ key) =>
+            match ev e1 x with
+            | EV e2 (VZ idx) =>
+                match lookup e2 m with
+                | Some (VIds l) => if idx =? zlen l
+                                   then match upd e2 m (VIds (l ++ [key])) with Some e3 => SN e3 | None => SStuck end
+                                   else SStuck
                 | _ => SStuck
                 end
             | EV _ _ => SStuck | EP e2 w => SP e2 w | EStuck => SStuck
